@@ -49,7 +49,10 @@ META = {
         "tokens render every child once; (d) children are rendered inside current_node_context of an empty element built by the handler; (e) a value stored in the node built "
         "for one child is assigned on every path of that iteration (no stale value of an earlier child); (f) the handlers of the leaf types the property names "
         "(text, inline code, code block, fence, math, raw HTML, image, thematic break) add something to the node being filled on every normal path (an empty token.content excepted); "
-        "(g) nothing in the render scope removes nodes from a tree handed in by the caller or from the renderer's own nodes, unless the name was rebound to a deepcopy on every path. "
+        "(g) nothing in the render scope removes nodes from a tree handed in by the caller or from the renderer's own nodes, unless the name was rebound to a deepcopy on every path; "
+        "(h) the message node handed to note_explicit_target / note_implicit_target is not the target node itself when that node can be a text element or image (classes from constructors, call sites of node parameters, isinstance guards); "
+        "(i) a node that gets a refname carries a rawsource (docutils' DanglingReferences transform, read from its source, replaces an unresolved reference by problematic(rawsource)). "
+        "In the handlers of inline containers (link, em, strong, s, span - read off which rules push the opening token) and the helpers they hand the token to, a warning does not excuse dropping the children. "
         "R3 content: the text of text, inline code, code block, fence, math and raw HTML leaves is exactly token.content (def-use chain, extracted helpers followed); the code highlighter "
         "feeds the lexer the text it was given and appends every fragment once; refuri/refname/uri/reftarget derive from token.attrGet('href'/'src') (backward slice through locals, "
         "parameters and helpers); an inventory link's refuri is computed from the inventory match (assumed, recognised by role: result of get_inventory_matches or an InvMatch parameter); a destination that receives only one part of a split href must have the remainder stored on the same node (download_reference excepted); image alt is "
@@ -58,9 +61,9 @@ META = {
         "tests the truthiness of a value it copies; the code language derives from token.info and is its first whitespace-delimited word (cut with str.split on any whitespace, as markdown-it's fence renderer does, not at one separator character); "
         "a forward flow analysis of the percent-encoding state (attrGet/normalizeLink = encoded, normalizeLinkText = decoded) shows that no refuri/uri receives a decoded value on any path (an id_link refuri is a local target name, C09); "
         "html_to_nodes' convertibility gate and conversion loop range over every child of the parsed HTML (all-or-nothing conversion of a raw-HTML leaf); no output-format encoder (escapeHtml, html.escape ...) lies between the href/src and the stored destination; the fragments of the library lexer add up to the code text, checked as two facts read off the docutils/pygments sources: "
-        "(1) pygments' default stripnl=True (docutils passes no options) must be switched off on the lexer on every path to the fragment loop, (2) the final newline that docutils' Lexer.merge strips must be put back. "
-        "Three instances fire on the current tree and are known findings: render_link_url stores escapeHtml(uri) as refuri; render_link_url stores the destination percent-decoded when the scheme's url_schemes item has no 'url' template; "
-        "the final newline of highlighted code is not restored in the docutils back end. "
+        "(1) pygments' default stripnl=True (docutils passes no options) must be switched off on the lexer on every path to the fragment loop, (2) the final newline that docutils' Lexer.merge strips must be put back, "
+        "(3) the joined fragments are compared with the text and the text is used as a single fragment on a mismatch (lexers are lossy in general). A refname / reftarget is a target name and must not be markdown-it's percent-encoded href. "
+        "Known findings on the current tree: render_link_url stores escapeHtml(uri) as refuri (R3); the final newline of highlighted code is not restored in the docutils back end (R3); a rubric heading is its own message node for note_implicit_target (R2 h). "
         "R4: current_node is rebound only by setup_render, by the save/set/restore halves of current_node_context (append before the rebind) and as the final statement of the section branch of "
         "render_heading or of a helper that render_heading calls last; += on it appends in place (docutils Element.__iadd__). "
         "R5 back ends: renderer subclasses override only link/math methods and add no handler; create_md_parser's renderer argument reaches only MarkdownIt(renderer_cls=...) and no condition; both "
@@ -84,7 +87,7 @@ META = {
     "assumptions": [
         "markdown-it emits tokens only through state.push / Token(...) / `.type =` with literal type strings in its rule modules",
         "users do not disable the core rule text_join via myst_disable_syntax",
-        "a path that reports a warning/error conditionally may drop the children of a container token (the loss is announced); a leaf token may not be dropped",
+        "a path that reports a warning/error conditionally may drop the children of a BLOCK container token (the loss is announced); inline containers and leaf tokens may not be dropped",
         "a node parameter of a helper may be part of the live doctree",
         "ordered-list start numbers are ints with 0 legal; the decision table samples 0, 2 and 10",
     ],
@@ -330,6 +333,25 @@ class TokenTypes:
             elif t.endswith("_close"):
                 base = t[: -len("_close")]
             out.setdefault(base, []).extend(sites)
+        return out
+
+    def inline_containers(self) -> set[str]:
+        """Container types whose opening token is produced by an inline rule (a function of a rules_inline module, or
+        one that takes a ``StateInline``), or by the core linkify rule."""
+        out = set()
+        for t, sites in self.sites.items():
+            if not t.endswith("_open"):
+                continue
+            for m, fname, _site, _nest, node in sites:
+                inline = m.name.startswith("markdown_it.rules_inline") or m.name.endswith("rules_core.linkify")
+                if not inline:
+                    for a in ancestors(node):
+                        if isinstance(a, (ast.FunctionDef, ast.AsyncFunctionDef)):
+                            args = a.args.posonlyargs + a.args.args + a.args.kwonlyargs
+                            inline = any(p.annotation is not None and "StateInline" in unparse(p.annotation) for p in args)
+                            break
+                if inline:
+                    out.add(t[: -len("_open")])
         return out
 
     def containers(self) -> set[str]:
@@ -1365,8 +1387,17 @@ class Nesting:
         done: dict[object, set[tuple[int, bool]]] = {}
         result: set[tuple[int, bool]] = set()
         work = []
+        report_excuses = fi.fq not in self.inline_scope()
+        # a start that lies inside a branch which has already reported (e.g. the clean-up walk after a
+        # 'duplicate definition' warning) is excused as a whole
+        pre = False
+        if report_excuses and start != "ENTRY":
+            sn = start if not isinstance(start, tuple) else start
+            for d in cfg.dom().get(sn, set()):
+                if isinstance(d, ast.stmt) and d is not sn and self.is_report(d, fi) and not all(cfg.postdominates(d, e) for e in entry_nodes if isinstance(e, ast.stmt)):
+                    pre = True
         for s in cfg.succ.get(start, []):
-            states.setdefault(s, set()).add((0, False))
+            states.setdefault(s, set()).add((0, pre))
             work.append(s)
         dep_cache: dict = {}
         while work:
@@ -1385,8 +1416,8 @@ class Nesting:
             flag = False
             if isinstance(n, ast.stmt):
                 ws = self.consume_weight(n, name, fi)
-                if self.is_report(n, fi) and not all(cfg.postdominates(n, e) for e in entry_nodes if isinstance(e, ast.stmt)):
-                    flag = True  # a conditional report: the loss on this path is announced
+                if report_excuses and self.is_report(n, fi) and not all(cfg.postdominates(n, e) for e in entry_nodes if isinstance(e, ast.stmt)):
+                    flag = True  # a conditional report: the loss on this path is announced (block-level containers only)
             elif isinstance(n, tuple) and n[0] in ("T", "F") and isinstance(n[1], ast.If):
                 key = (id(n[1]), n[0])
                 if key not in dep_cache:
@@ -1494,6 +1525,30 @@ class Nesting:
         got = self.emit_counts(m, _tok_param(m))
         self.memo[key] = bool(got) and 0 not in got
         return self.memo[key]
+
+    def inline_scope(self) -> set[str]:
+        """Handlers of inline container tokens (link, em, strong, s, span ...) and the helpers they hand their token to:
+        there a warning does not excuse dropping the children - inline text must not vanish from its paragraph."""
+        key = ("inline-scope",)
+        if key in self.memo:
+            return self.memo[key]
+        self.memo[key] = set()
+        tt = _token_types(self.c)
+        out: set[str] = set()
+        work = [m for m in (self.method(f"render_{t}") for t in tt.inline_containers()) if m is not None]
+        while work:
+            f = work.pop()
+            if f.fq in out or f.is_lambda:
+                continue
+            out.add(f.fq)
+            toks = set(_tok_params(f))
+            for c in f.local_nodes():
+                if isinstance(c, ast.Call) and (_is_self_call(c) or isinstance(c.func, ast.Call)) and not _is_self_call(c, "render_children") and any(isinstance(a, ast.Name) and a.id in toks for a in list(c.args) + [k.value for k in c.keywords]):
+                    for m in self.call_targets_safe(c, f):
+                        if _tok_params(m):
+                            work.append(m)
+        self.memo[key] = out
+        return out
 
     def sequence_loops(self, m: FunctionInfo, p: str) -> bool:
         """``for t in p [or []]`` loops of a helper whose parameter ``p`` is a sequence of tokens, every iteration
@@ -1695,6 +1750,18 @@ def r2_nesting_discipline(corpus: Corpus, rep: Report, tier: str):
                     rep.violation("C02.R2", k, fi.module.site(op), f"`{short(op, 50)}` removes nodes from `{root}`, {why}: nodes that were rendered into the doctree disappear from it again")
                 else:
                     rep.ok("C02.R2", k, fi.module.site(op), f"`{root}` is a private copy on every path to the removal")
+        if klass.fq == base_ci.fq:
+            # (h) a 'duplicate target' message must not be appended into a text element (leaf, title, rubric)
+            for fi, call, verdict, why in _target_message_nodes(corpus, an):
+                k = f"{fi.fq}|{short(call.func, 40).split('.')[-1]}({', '.join(short(a, 20) for a in call.args)}) message node"
+                if verdict == "bad":
+                    rep.violation("C02.R2", k, fi.module.site(call), why)
+                elif verdict == "ok":
+                    rep.ok("C02.R2", k, fi.module.site(call), why)
+                else:
+                    rep.listed("C02.R2", k, fi.module.site(call), why)
+            # (i) a node that docutils may replace by problematic(rawsource) carries its text as rawsource
+            _problematic_rawsource(corpus, rep, an)
         for fq, name, text, site in an.assumed:
             rep.assumed("C02.R2", f"{fq}|{name} rebound from itself|{text}", site, "the name is rebound to a value computed from the node itself (e.g. make_glossary_term(term.children)): the new node takes over the obligation")
         an.assumed.clear()
@@ -1795,6 +1862,150 @@ def _live_tree_removals(corpus: Corpus, an: Nesting):
             else:
                 out.append((f, op, root, ""))
     return out
+
+
+def _node_classes_of(an: "Nesting", e: ast.expr, fi: FunctionInfo, depth: int = 0) -> set[str] | None:
+    """Docutils classes an expression can hold: names of constructor classes for locals built here, the union over
+    the call sites for a node parameter; None if unknown."""
+    if isinstance(e, ast.Name):
+        out: set[str] = set()
+        defs = [d for d in _all_defs(fi, e.id) if not any(isinstance(x, ast.AugAssign) and x.value is d for x in fi.local_nodes())]
+        for d in defs:
+            if isinstance(d, ast.Call):
+                nc = _node_class(d, fi.module)
+                if nc is not None:
+                    out.add(nc.rsplit(".", 1)[1])
+                    continue
+                prod = an.is_producer(d, fi)
+                if prod:
+                    out.add(prod.rsplit(".", 1)[-1])
+                    continue
+            if isinstance(d, ast.Name) or isinstance(d, ast.IfExp):
+                subs = [d] if isinstance(d, ast.Name) else [d.body, d.orelse]
+                for x in subs:
+                    r = _node_classes_of(an, x, fi, depth + 1) if depth < 3 else None
+                    if r is None:
+                        return None
+                    out |= r
+                continue
+            return None
+        if e.id in fi.params and depth < 2:
+            sites = []
+            for g in an.scope():
+                for c in g.local_nodes():
+                    if isinstance(c, ast.Call) and fi in an.call_targets_safe(c, g):
+                        sites.append((g, c))
+            if not sites:
+                return None
+            for g, c in sites:
+                args = an._args_for_param(c, fi, e.id)
+                if not args:
+                    return None
+                for a in args:
+                    r = _node_classes_of(an, a, g, depth + 1)
+                    if r is None:
+                        return None
+                    out |= r
+        elif not defs:
+            return None
+        return out
+    if isinstance(e, ast.Attribute) and unparse(e) in ("self.current_node", "self.document"):
+        return {"<current node>"}
+    return None
+
+
+def _target_message_nodes(corpus: Corpus, an: "Nesting"):
+    """docutils appends the 'Duplicate ... target name' system_message to the *message node* handed to
+    note_explicit_target / note_implicit_target. If that is the target node itself and the node is a text element
+    (code, math, rubric, ...) or an image, the message text becomes part of the leaf. For every call in the render
+    scope whose message node can be the target node: the classes the node can have (constructor, call sites of a node
+    parameter, isinstance guards) must all be non-text containers (section, footnote, ...)."""
+    out = []
+    for fi in an.scope():
+        cfg = None
+        for call in sorted((c for c in fi.local_nodes() if isinstance(c, ast.Call) and isinstance(c.func, ast.Attribute) and c.func.attr in ("note_explicit_target", "note_implicit_target") and len(c.args) >= 2), key=lambda c: c.lineno):
+            tgt, msg = call.args[0], call.args[1]
+            cfg = cfg or get_cfg(fi)
+            # alternatives of the message node
+            alts: list[tuple[ast.expr, list]] = []
+
+            def expand(m, guards, depth=0):
+                if isinstance(m, ast.IfExp):
+                    expand(m.body, guards + [(m.test, True)], depth + 1)
+                    expand(m.orelse, guards + [(m.test, False)], depth + 1)
+                elif isinstance(m, ast.Name) and depth < 3 and m.id not in fi.params and len(_all_defs(fi, m.id)) == 1 and unparse(m) != unparse(tgt):
+                    expand(_all_defs(fi, m.id)[0], guards, depth + 1)
+                else:
+                    alts.append((m, guards))
+
+            expand(msg, [])
+            same = [(m, g) for m, g in alts if unparse(m) == unparse(tgt)]
+            if not same:
+                out.append((fi, call, "ok", "the message goes to another node than the target"))
+                continue
+            bad = None
+            unknown = False
+            for m, guards in same:
+                facts = guards + list(cfg.guards(cfg.stmt_of(call)))
+                narrowed = None
+                for t, pol in facts:
+                    if pol and isinstance(t, ast.Call) and dotted(t.func) == "isinstance" and len(t.args) == 2 and unparse(t.args[0]) == unparse(tgt):
+                        names = [x for x in ast.walk(t.args[1]) if isinstance(x, ast.Attribute)]
+                        narrowed = {x.attr for x in names}
+                classes = narrowed if narrowed is not None else _node_classes_of(an, tgt, fi)
+                if classes is None:
+                    unknown = True
+                    continue
+                texty = sorted(c for c in classes if c in _TEXT_ELEMENTS or c == "image" or c == "Element")
+                if texty:
+                    bad = texty
+            if bad:
+                out.append((fi, call, "bad", f"`{short(call, 60)}`: the node itself is the message node and it can be a {', '.join(bad)} (a text element / image): docutils appends its 'Duplicate "
+                            "… target name' system_message inside that node, so the message text becomes part of the leaf or title"))
+            elif unknown:
+                out.append((fi, call, "listed", "message node is the target itself; the class of the node is not known here (nodes from another parser)"))
+            else:
+                out.append((fi, call, "ok", "the node is its own message node, and it is a block container (section, footnote ...)"))
+    return out
+
+
+def _problematic_rawsource(corpus: Corpus, rep: Report, an: "Nesting") -> None:
+    """docutils' DanglingReferences transform replaces a reference whose ``refname`` does not resolve by
+    ``problematic(node.rawsource, node.rawsource)`` (read off docutils/transforms/references.py): without a rawsource the
+    text rendered into the reference disappears from the published document. Every node that gets a ``refname`` in the
+    render scope is built with a rawsource, or gets one assigned after its children were rendered."""
+    ref = corpus.sibling("docutils/transforms/references.py")
+    rep.saw_sibling(ref.rel)
+    vis = ref.functions.get("DanglingReferencesVisitor.visit_reference")
+    if vis is None:
+        raise AnchorMissing("docutils DanglingReferencesVisitor.visit_reference not found")
+    uses_rawsource = any(isinstance(c, ast.Call) and (dotted(c.func) or "").endswith("problematic") and c.args and unparse(c.args[0]).endswith(".rawsource") for c in vis.local_nodes()) and any(
+        isinstance(c, ast.Call) and isinstance(c.func, ast.Attribute) and c.func.attr == "replace_self" for c in vis.local_nodes())
+    n = 0
+    for fi in an.scope():
+        if fi.cls is None or fi.cls.fq != an.k.fq:
+            continue
+        for st in sorted((x for x in fi.local_nodes() if isinstance(x, ast.Assign) and len(x.targets) == 1 and isinstance(x.targets[0], ast.Subscript) and isinstance(x.targets[0].slice, ast.Constant) and x.targets[0].slice.value == "refname" and isinstance(x.targets[0].value, ast.Name)), key=lambda x: x.lineno):
+            node = st.targets[0].value.id
+            n += 1
+            k = f"{fi.fq}|{node} with a refname keeps its text as rawsource"
+            if not uses_rawsource:
+                rep.ok("C02.R2", k, fi.module.site(st), "the installed docutils does not replace dangling references by their rawsource")
+                continue
+            ctor_ok = False
+            for d in _all_defs(fi, node):
+                if isinstance(d, ast.Call) and _node_class(d, fi.module) is not None and d.args and not (isinstance(d.args[0], ast.Constant) and d.args[0].value == ""):
+                    ctor_ok = True
+            cfg = get_cfg(fi)
+            sets = [x for x in fi.local_nodes() if isinstance(x, ast.Assign) and len(x.targets) == 1 and isinstance(x.targets[0], ast.Attribute) and x.targets[0].attr == "rawsource" and unparse(x.targets[0].value) == node]
+            later = any(cfg.postdominates(x, st) for x in sets)
+            if ctor_ok or later:
+                rep.ok("C02.R2", k, fi.module.site(st), "rawsource given at construction" if ctor_ok else "rawsource assigned on every path after the refname")
+            else:
+                rep.violation("C02.R2", k, fi.module.site(st), f"`{node}` gets a refname but no rawsource: if the name does not resolve, docutils' DanglingReferences transform replaces the reference by problematic(rawsource) = '' "
+                              "and the link text (its children) is lost from the published document ('See [the *other* page](other.md) for details.' -> 'See  for details.')")
+    if n < 2:
+        rep.error("C02.R2", f"only {n} refname stores found in the docutils renderer (expected the link and footnote references)")
 
 
 def _root_name(e: ast.AST) -> str | None:
@@ -2056,7 +2267,8 @@ def _split_bindings(fi: FunctionInfo, an: "Nesting | None" = None, depth: int = 
                     elts = r.value.args if isinstance(r.value, ast.Call) else r.value.elts
                     for tgt, el in zip(t.elts, elts):
                         nm = tgt.id if isinstance(tgt, ast.Name) else None
-                        used = {x.id for x in ast.walk(el) if isinstance(x, ast.Name)}
+                        callees = {id(c.func) for c in ast.walk(el) if isinstance(c, ast.Call)}
+                        used = {x.id for x in ast.walk(el) if isinstance(x, ast.Name) and id(x) not in callees}
                         if nm and isinstance(el, ast.Name) and el.id in hp:
                             parts.add(nm)
                         elif nm and used & hr and not (used - hr - {"None", "len"}):
@@ -2664,6 +2876,24 @@ def _lexer_conservation(corpus: Corpus, rep: Report, hl: FunctionInfo) -> None:
         else:
             rep.ok("C02.R3", k1, site, "stripnl is switched off on the pygments lexer before the fragments are read")
 
+    # (3) lexers are lossy in general (pygments drops a BOM, some lexers normalise whitespace): the fragments are only
+    #     used if they add up to the text; otherwise the text goes in as one fragment
+    k3 = f"{hl.fq}|lexed fragments are used only if they add up to the code text"
+    checks = []
+    for n in hl.local_nodes():
+        if isinstance(n, ast.If) and any(isinstance(c, ast.Compare) and (unparse(c.left) == tp or any(tp in unparse(x) for x in c.comparators)) for c in ast.walk(n.test)):
+            joins = [c for c in ast.walk(n.test) if isinstance(c, ast.Call) and isinstance(c.func, ast.Attribute) and c.func.attr == "join"]
+            names_in_test = {x.id for x in ast.walk(n.test) if isinstance(x, ast.Name)}
+            joined = bool(joins) or any(isinstance(d, ast.Call) and isinstance(d.func, ast.Attribute) and d.func.attr == "join" for nm in names_in_test for d in _all_defs(hl, nm))
+            fallback = any(isinstance(st, ast.Assign) and isinstance(st.targets[0], ast.Name) and st.targets[0].id == unparse(loop.iter) and _mentions(st.value, tp) for st in ast.walk(n))
+            if joined and fallback:
+                checks.append(n)
+    if checks and not cfg.paths_avoiding(cfg.stmt_of(active[0]), loop, lambda n: any(n is c for c in checks) or (isinstance(n, tuple) and n[0] == "H")):
+        rep.ok("C02.R3", k3, hl.module.site(checks[0]), "the joined fragments are compared with the text; on a mismatch the text is used as a single fragment")
+    else:
+        rep.violation("C02.R3", k3, site, "the fragments that pygments yields are put into the literal block without checking that they add up to the code text: pygments pre-processes its input "
+                      "(a leading U+FEFF is dropped) and some lexers are lossy ('```robotframework' turns 'a\\tb\\x0cc' into 'a b\\nc'), so the code is not kept verbatim by the docutils back end while Sphinx and an unhighlighted fence keep it")
+
     # (2) final newline
     if not merge_strips:
         rep.ok("C02.R3", k2, site, "the installed docutils Lexer.merge keeps the final newline")
@@ -2769,7 +2999,7 @@ def _language_word(corpus: Corpus, rep: Report, an: "Nesting", f: FunctionInfo, 
 ENC, DEC, OTHER = "encoded", "decoded", "other"
 
 
-def _decoded_destination(rep: Report, an: "Nesting", fi: FunctionInfo, key_name: str, store: ast.stmt, value: ast.expr) -> bool:
+def _decoded_destination(rep: Report, an: "Nesting", fi: FunctionInfo, key_name: str, store: ast.AST, value: ast.expr, want: str = "encoded") -> bool:
     """markdown-it hands out percent-ENCODED destinations; ``normalizeLinkText`` DECODES them (for display / template
     variables), ``normalizeLink`` encodes again. A forward flow analysis of that state over the CFG, for the locals the stored
     value is made of: a URI attribute (refuri / uri) must not receive a value that is in the decoded state on some path.
@@ -2855,6 +3085,16 @@ def _decoded_destination(rep: Report, an: "Nesting", fi: FunctionInfo, key_name:
                 work.append(sx)
     env_at = inn.get(cfg.stmt_of(store), {})
     plain = {k: {s for s, _ in v} for k, v in env_at.items()}
+    if want == "decoded":
+        # a target *name* (refname / reftarget) is matched against names written in the source: it must not be
+        # markdown-it's percent-encoded href
+        if ENC in state_of(value, plain):
+            rep.violation("C02.R3", f"{fi.fq}|{key_name} is a decoded target name", fi.module.site(store),
+                          f"`{key_name}` receives `{short(value, 50)}`, markdown-it's percent-encoded href, on some path: `[a](é)` / `[b](<my target>)` look for the names '%C3%A9' / 'my%20target' "
+                          "and end as unknown targets, while the other back end decodes the name first (the back ends disagree on the destination)")
+            return True
+        rep.ok("C02.R3", f"{fi.fq}|{key_name} is a decoded target name", fi.module.site(store), "never the raw percent-encoded href")
+        return False
     if DEC not in state_of(value, plain):
         return False
     stmts = {id(x): x for x in fi.local_nodes() if isinstance(x, ast.stmt)}
@@ -3105,6 +3345,9 @@ def r3_verbatim_leaves(corpus: Corpus, rep: Report, tier: str):
                     local_target = any(isinstance(o, ast.Assign) and isinstance(o.targets[0], ast.Subscript) and unparse(o.targets[0].value) == recv and isinstance(o.targets[0].slice, ast.Constant) and o.targets[0].slice.value == "id_link" for o in fi.local_nodes())
                     if not local_target:  # an id_link refuri is the name of a local target to look up (C09), not a URI
                         _decoded_destination(rep, an, fi, key_name, site_node, value)
+                if key_name in ("refname", "reftarget") and _reaches(value, fi, an, _attr_source(attr)):
+                    ordn["names"] = ordn.get("names", 0) + 1
+                    _decoded_destination(rep, an, fi, key_name + ("" if ordn["names"] == 1 else f"#{ordn['names']}"), site_node, value, want="decoded")
                 enc = _encoders_on_slice(value, fi)
                 if enc and _reaches(value, fi, an, _attr_source(attr)):
                     ke = f"{fi.fq}|{key_name} is stored without output-format escaping"
@@ -3117,6 +3360,17 @@ def r3_verbatim_leaves(corpus: Corpus, rep: Report, tier: str):
                         return
                     # only a part of the destination (e.g. the path before '#') arrives here: the rest must travel alongside
                     _parts, rem = _split_bindings(fi, an)
+                    slice_names: set[str] = set()
+                    wk = [value]
+                    while wk:
+                        xx = wk.pop()
+                        for nn in ast.walk(xx):
+                            if isinstance(nn, ast.Name) and nn.id not in slice_names:
+                                slice_names.add(nn.id)
+                                wk.extend(_all_defs(fi, nn.id))
+                    if slice_names & rem and slice_names & _parts:
+                        rep.ok("C02.R3", k, fi.module.site(site_node), "part and remainder of the split destination are joined again")
+                        return
                     companions = []
                     if isinstance(site_node, ast.Call):
                         companions = [kw.arg for kw in site_node.keywords if kw.arg != key_name and kw.arg is not None and any(isinstance(x, ast.Name) and x.id in rem for x in ast.walk(kw.value))]
@@ -4204,6 +4458,40 @@ def mutants(corpus: Corpus):
         add("c02-html-loop-skips-last-child", "C02.R3", h2n, conv.iter, "list(root)[:-1]", "conversion loop")
     else:
         out.append(("c02-html-*", "gate/loop of html_to_nodes not found"))
+
+    # ---- reverts of the round-10 repairs
+    # cb7c1fd: the node itself as message node of note_explicit_target
+    f = base.func(R + "copy_attributes")
+    c = find_node(f, lambda n: isinstance(n, ast.Call) and isinstance(n.func, ast.Attribute) and n.func.attr == "note_explicit_target" and len(n.args) == 2)
+    add("c02-revert-msgnode-fix-copy-attributes", "C02.R2", base, c.args[1] if c else None, unparse(c.args[0]) if c else "", "message node")
+    f = base.func(R + "render_math_block_label")
+    c = find_node(f, lambda n: isinstance(n, ast.Call) and isinstance(n.func, ast.Attribute) and n.func.attr == "note_explicit_target" and len(n.args) == 2)
+    add("c02-revert-msgnode-fix-math-label", "C02.R2", base, c.args[1] if c else None, unparse(c.args[0]) if c else "", "message node")
+    # 5769918: an unresolved inventory link returns after its warning without rendering the link text
+    f = base.func(R + "render_link_inventory")
+    keeps = sorted((n for n in walk_local(f.node) if isinstance(n, ast.If) and unparse(n.test) == "explicit" and len(n.body) == 1 and isinstance(n.body[0], ast.Return) and "render_link_url" in unparse(n.body[0])), key=lambda n: n.lineno)
+    if keeps:
+        src2 = base.src
+        for n in reversed(keeps):
+            src2 = splice(src2, n, "pass")
+        out.append(Mutant("c02-revert-inventory-link-text-kept", "C02.R2", base.rel, src2, expect="render_link_inventory|children"))
+    else:
+        out.append(("c02-revert-inventory-link-text-kept", "`if explicit: return self.render_link_url(token)` not found"))
+    # 1f47f0d: refname is markdown-it's percent-encoded href
+    f = base.func(R + "render_link_unknown")
+    st = find_node(f, lambda n: isinstance(n, ast.Assign) and unparse(n.targets[0]) == "ref_node['refname']")
+    add("c02-revert-refname-decoded", "C02.R3", base, st.value if st else None, 'cast(str, token.attrGet("href") or "")', "decoded target name")
+    # fa593fc: the reference has no rawsource
+    st = find_node(f, lambda n: isinstance(n, ast.Assign) and isinstance(n.targets[0], ast.Attribute) and n.targets[0].attr == "rawsource")
+    add("c02-revert-reference-rawsource", "C02.R2", base, st, "pass", "keeps its text as rawsource")
+    # 3a7eebf: the lexed fragments are used unchecked
+    f = base.func(R + "create_highlighted_code_block")
+    chk = find_node(f, lambda n: isinstance(n, ast.If) and "lexed" in unparse(n.test) and any(isinstance(c, ast.Compare) for c in ast.walk(n.test)))
+    add("c02-revert-lexed-text-check", "C02.R3", base, chk, "pass", "add up to the code text")
+    sp = smod_r10 = None
+    f = sph.func("SphinxRenderer.render_link_path")
+    kw = find_node(f, lambda n: isinstance(n, ast.keyword) and n.arg == "reftarget")
+    add("c02-sphinx-reftarget-percent-encoded", "C02.R3", sph, kw.value if kw else None, 'cast(str, token.attrGet("href") or "")', "decoded target name")
 
     # ---- R4
     f = base.func(R + "render_paragraph")
